@@ -683,7 +683,8 @@ class BasicLexer(AbstractBasicLexer):
         while line_ctr.char_pos < lex_state.text.end:
             res = self.match(lex_state.text, line_ctr.char_pos)
             if not res:
-                allowed = self.scanner.allowed_types - self.ignore_types
+                # Not the scanner's types: keywords contained in a regexp terminal are matched through it
+                allowed = {t.name for t in self.terminals} - self.ignore_types
                 if not allowed:
                     allowed = {"<END-OF-FILE>"}
                 raise UnexpectedCharacters(lex_state.text.text, line_ctr.char_pos, line_ctr.line, line_ctr.column,
